@@ -166,6 +166,8 @@ pub struct TypeChecker {
     namespace_to_file: HashMap<NamespaceID, FileOrLib>,
     // TODO(ed): This can probably be removed via some trickery
     pub file_to_namespace: HashMap<FileOrLib, NamespaceID>,
+    /// The variables that name a blob or an enum declaration - they aren't values.
+    type_declarations: BTreeSet<usize>,
 }
 
 #[derive(Clone, Debug, Copy)]
@@ -202,6 +204,7 @@ impl TypeChecker {
                 .iter()
                 .map(|(a, b)| (b.clone(), a.clone()))
                 .collect(),
+            type_declarations: BTreeSet::new(),
         };
         for var in variables {
             let ty = res.push_type(Type::Unknown);
@@ -604,6 +607,7 @@ impl TypeChecker {
                     type_params,
                 ));
                 self.unify(*span, ctx, ty, enum_ty)?;
+                self.type_declarations.insert(*var);
             }
 
             S::Blob { name, var, fields, variables, external, span } => {
@@ -645,6 +649,7 @@ impl TypeChecker {
                     false => Type::Blob(name.clone(), *span, resolved_fields, type_params),
                 });
                 self.unify(*span, ctx, ty, blob_ty)?;
+                self.type_declarations.insert(*var);
             }
 
             S::Definition { .. } => {
@@ -708,6 +713,17 @@ impl TypeChecker {
         use Expression as E;
         let (expr_ret, expr) = match expression {
             E::Read { var, span, .. } => {
+                if self.type_declarations.contains(var) {
+                    // The type of the variable of a declaration is the declared type - which
+                    // would make the declaration itself look like an instance.
+                    return err_type_error!(
+                        self,
+                        *span,
+                        TypeError::Exotic,
+                        "'{}' is a type, not a value",
+                        self.variables[*var].name
+                    );
+                }
                 let var = &self.variables[*var];
                 let immutable = var.kind.immutable();
                 if ctx.inside_pure && !immutable {
